@@ -196,6 +196,23 @@ func c20Decode(c *engine.Ctx, cs c20Case, in []byte) {
 		c.Violate("decoded-field-aliases-input/"+fieldOf(r.Path), fmt.Sprintf("%s: after Decode the field %s (len %d, cap %d) shares memory with the input buffer", cs.Name, r.Path, r.Len, r.Cap), cs)
 		return
 	}
+	// inside one decoded message every byte slice has its memory to itself, spare capacity included: appending to
+	// one field (a non-mutating append by the holder) must not be able to reach another field
+	{
+		rs := engine.Regions(&m.Payloads)
+		for i := 0; i < len(rs); i++ {
+			for j := i + 1; j < len(rs); j++ {
+				a, b2 := rs[i], rs[j]
+				if a.Cap == 0 || b2.Cap == 0 || a.Base == b2.Base && a.Path == b2.Path {
+					continue
+				}
+				if a.Base < b2.Base+uintptr(b2.Cap) && b2.Base < a.Base+uintptr(a.Cap) {
+					c.Violate("decoded-fields-share-capacity/"+fieldOf(a.Path), fmt.Sprintf("%s: the fields %s (len %d, cap %d) and %s (len %d, cap %d) of one decoded message overlap in memory: appending to one overwrites the other", cs.Name, a.Path, a.Len, a.Cap, b2.Path, b2.Len, b2.Cap), cs)
+					return
+				}
+			}
+		}
+	}
 	// two decodings of the same octets own their data separately: no heap object (payload, nested element, byte
 	// slice, map) is reachable from both — the first message may be edited freely by its holder
 	{
@@ -483,6 +500,27 @@ func c20Protect(c *engine.Ctx, cs c20Case) {
 		before[i] = engine.Dump(p)
 	}
 	h0 := *lm.IKEHeader
+	// a protection that is refused (the random source fails at read 0 / 1) alters nothing at all
+	for at := 0; at < 2; at++ {
+		script := make([]int, at+1)
+		script[at] = 1
+		fs := engine.NewSeam(engine.NewReplayRun(script), []int{engine.AnsA, engine.AnsErr})
+		rst := engine.Install(fs)
+		var ferr error
+		fpi := engine.Catch(func() { _, ferr = ike.EncodeEncrypt(lm, sa, roleOf(cs.Role)) })
+		rst()
+		if fpi != nil || ferr == nil {
+			break
+		}
+		same := len(lm.Payloads) == len(orig)
+		for i := 0; same && i < len(orig); i++ {
+			same = lm.Payloads[i] == orig[i] && engine.Dump(orig[i]) == before[i]
+		}
+		if !same {
+			c.Violate("refused-protect-alters-message", fmt.Sprintf("%s: EncodeEncrypt returned an error (random source failing at read %d) and the message's payload list is no longer what the caller built", cs.Name, at), cs)
+			return
+		}
+	}
 	seam := engine.NewSeam(nil, nil)
 	restore := engine.Install(seam)
 	var b []byte
